@@ -868,13 +868,16 @@ class Scores:
         return np.abs(trapezoid(y, x))
 
     @staticmethod
-    def _find_root(f, xa, xe, find_first, xtol=1e-10) -> float:
+    def _find_root(f, xa, xe, find_first, xtol=0.0) -> float:
         """Finds first or last root of a monotone function on interval (xa, xe)."""
         if not (f(xa) <= 0 <= f(xe)):
             raise ValueError(f"f({xa}) <= 0 <= f({xe}) not satisfied.")
 
         while not np.abs(xa - xe) < xtol:
             xm = (xa + xe) / 2
+            if not xa < xm < xe:
+                # The interval cannot be halved any further in floating point.
+                break
             if f(xm) < 0:
                 xa = xm
             elif f(xm) > 0:
